@@ -1,0 +1,16 @@
+//go:build verif
+
+package codec
+
+import "reflect"
+
+// VerifIsEmptyField calls isEmptyValue (whichever implementation this build
+// compiles: helper_unsafe.go or helper_not_unsafe.go) on field i of the struct
+// that structPtr points to, the way the encoder's omitempty check reaches it.
+func VerifIsEmptyField(structPtr interface{}, i int, recursive bool) bool {
+	rv := reflect.ValueOf(structPtr).Elem().Field(i)
+	return isEmptyValue(rv, nil, recursive)
+}
+
+// VerifSafeMode reports whether this build uses the reflect-only helpers.
+func VerifSafeMode() bool { return safeMode }
